@@ -120,6 +120,20 @@ func runEnumCase(t *testing.T, r *rand.Rand, ranks [4]int, nowPos int, variant s
 	case "missing+reinit":
 		_ = w.Inner.Remove(w.Ctx, &types.RootCertificates{Id: nodeenrollment.RootsMessageId})
 		reinit = true
+	case "only-current+reinit":
+		raw.Next = nil
+		w.PutRawRoots(raw)
+		reinit = true
+	case "only-next+reinit":
+		raw.Current = nil
+		w.PutRawRoots(raw)
+		reinit = true
+	case "garbage-keys+reinit":
+		// a record whose sealed keys cannot be opened (e.g. sealed by a wrapper that is gone)
+		raw.WrappingKeyId = "gone"
+		raw.Current.PrivateKeyPkcs8, raw.Next.PrivateKeyPkcs8 = []byte{0x0a, 0x20, 1, 2, 3, 4, 5, 6, 7, 8, 9, 10, 11, 12, 13, 14, 15, 16, 17, 18, 19, 20, 21, 22, 23, 24, 25, 26, 27, 28, 29, 30, 31, 32}, []byte{0x0a, 0x01, 0x00}
+		w.PutRawRoots(raw)
+		reinit = true
 	case "only-current":
 		raw.Next = nil
 		w.PutRawRoots(raw)
@@ -181,7 +195,7 @@ func TestEnum_OrderTypes(t *testing.T) {
 		}
 	}
 	rec.Gauge("order_types", int64(n))
-	for i, variant := range []string{"missing", "missing+reinit", "only-current", "only-next", "empty-record"} {
+	for i, variant := range []string{"missing", "missing+reinit", "only-current", "only-next", "empty-record", "only-current+reinit", "only-next+reinit", "garbage-keys+reinit"} {
 		for _, wrapper := range []bool{false, true} {
 			runEnumCase(t, r, [4]int{0, 2, 1, 3}, 1, variant, wrapper, randomConfig(r))
 			_ = i
